@@ -126,7 +126,23 @@ class HDeck(Deck):
         return [c for c in self.hcells if c.u == u]
 
     def finish(self):
-        self.cells = [c.card(self) for c in self.hcells]
+        order = list(self.hcells)
+        how = getattr(self, 'card_order', 'given')
+        if how == 'reversed':
+            order = order[::-1]
+        elif how == 'interleaved':
+            # round-robin over the universes: the cards of one universe are not contiguous in the deck
+            byu = {}
+            for c in order:
+                byu.setdefault(c.u, []).append(c)
+            order = []
+            k = 0
+            while any(byu.values()):
+                for u in sorted(byu, key=lambda x: (x == 0, x)):
+                    if byu[u]:
+                        order.append(byu[u].pop(0))
+                k += 1
+        self.cells = [c.card(self) for c in order]
         self.surfs = []
         for n, t in sorted(self.surfcards.items(), key=lambda kv: str(kv[0])):
             if not isinstance(n, int):
